@@ -2,7 +2,9 @@
 MarkdownUpdateGenerator::generate_update (+ Outcome::generate_testcase) on every template document in the bound: no crash, and the document
 comes back unchanged line for line — prose, foreign code blocks, comments, commands, expectation lines of the passing tests and the text
 after the last test; nothing is truncated (an unterminated scrut block only gains its closing fence).  Idempotence on these documents
-follows (the output is the input).  Failing tests (rewritten expectations), front-matter, inline configuration and CRLF are outside."""
+follows (the output is the input).  With any subset of the tests failing (the command prints one other line): everything outside the
+failing blocks unchanged, a failing block keeps fence language, comments, command and exit code and gets the new output; the updated
+document parses (real parser) to the same commands.  Front-matter, inline configuration, multi-line new output and CRLF are outside."""
 import random
 
 import e2
@@ -21,6 +23,10 @@ def run(pid, tier):
     res = e2.run_with_raw(prog, h)
     docs.replay_update(rep, nat, h, res)
     e2.record(rep, h, res)
+    hf = docs.h_md_update_failing(4 if tier == "quick" else 5)
+    resf = e2.run_with_raw(prog, hf)
+    docs.replay_update(rep, nat, hf, resf)
+    e2.record(rep, hf, resf)
     nat.close()
     tot = sum(s.get("paths", 0) for s in rep.subclaims)
     rep.coverage.update({
@@ -34,5 +40,5 @@ def run(pid, tier):
         "samples": [s for sc in rep.subclaims for s in sc.get("samples", [])][:4] or ["template documents: see subclaims"],
         "mir_dump_s": round(mir_s, 1),
     })
-    rep.assumptions += ["lib/miniregex.py regex semantics; std contract models", "all outcomes are passing results with the expected exit code"]
+    rep.assumptions += ["lib/miniregex.py regex semantics; std contract models", "outcomes are passing results, or `MalformedOutput` with the one-line output `zz` (diff built by the harness; the native replay uses the real DiffTool)"]
     return rep.finish()
